@@ -109,6 +109,18 @@ def _sel_entries(s, vec):
         return [(s[1], {k: v for k, v in vec.items() if v != (0, INF, None)})]
     if s[0] == "sel":
         return [(val, dict(items)) for val, items in s[1]]
+    if s[0] == "cmp":
+        # a length comparison not yet branched on (`a.len() == 3 || a.len() == 4` evaluated into a bool): what each value of it says
+        base = {k: v for k, v in vec.items() if v != (0, INF, None)}
+        iv = vec.get(s[2], (0, INF, None))
+        out = []
+        for val, op in ((True, s[1]), (False, negate(s[1]))):
+            r = refine(iv, op, s[3])
+            if r is not None:
+                d = dict(base)
+                d[s[2]] = r
+                out.append((val, d))
+        return out or None
     return None
 
 
